@@ -141,6 +141,10 @@ func (its *WiredDatatype) checkOptionAndError(ppp *model.PushPullPack) errors.Or
 		}
 		return errors.ClientSync.New(its.L(), "error response without an error operation")
 	} else if ppp.GetPushPullPackOption().HasSubscribeBit() {
+		if its.state == model.StateOfDatatype_SUBSCRIBED {
+			// a late or repeated answer to the subscribe request: the datatype is past that point
+			return errors.DatatypeSubscribe.New(its.L(), "already subscribed")
+		}
 		if len(ppp.GetOperations()) == 0 {
 			return errors.DatatypeSubscribe.New(its.L(), "subscribe without SnapshotOp")
 		}
